@@ -196,6 +196,50 @@ Theorem C20_ehabi_num_entry_any_history : forall img le sh_off sh_size h1 h2,
 Proof. exact eh_hist_num_exact. Qed.
 Print Assumptions C20_ehabi_num_entry_any_history.
 
+(* ======================= the section header: only sh_offset and sh_size locate anything ======================= *)
+
+(* The models over the decoded Elf_Shdr dict (Model/C20Hist.v *_sec): an index entry is 8 bytes
+   whatever sh_entsize records (0, 8, 4, 16, 1, 2^32-1 ...); sh_name, sh_type, sh_flags, sh_addr,
+   sh_link, sh_info, sh_addralign of .ARM.exidx may hold anything: same entries, same count, in
+   every history *)
+Theorem C20_ehabi_header_field_irrelevant : forall img le (h : shdr) k v hist,
+  k <> "sh_offset"%string -> k <> "sh_size"%string ->
+  eh_hist_sec img le ((k, v) :: h) hist = eh_hist_sec img le h hist.
+Proof. exact eh_hist_field_irrelevant. Qed.
+Print Assumptions C20_ehabi_header_field_irrelevant.
+
+Theorem C20_ehabi_entry_exact_any_header : forall img le (h : shdr) n a,
+  zlen img < 2 ^ 63 -> 0 <= hget h "sh_offset" -> 0 <= n < hget h "sh_size" / 8 ->
+  wf_entry (hget h "sh_offset" + n * 8) a = true ->
+  at_ img (hget h "sh_offset" + n * 8) (enc_index le (hget h "sh_offset" + n * 8) a) ->
+  (table_words a <> [] -> at_ img (table_offset a) (enc_table le a)) ->
+  exists r, get_entry_sec img le h n = Ok r /\ mask_tbl a r = expected_entry (hget h "sh_offset" + n * 8) a.
+Proof. exact get_entry_sec_exact. Qed.
+Print Assumptions C20_ehabi_entry_exact_any_header.
+
+(* the attributes section: every field but sh_offset / sh_size / sh_flags is free, and sh_flags is
+   free as long as SHF_COMPRESSED is clear (a compressed section is property C02's subject) *)
+Theorem C20_attr_header_field_irrelevant : forall ai le img (h : shdr) k v hist,
+  k <> "sh_offset"%string -> k <> "sh_size"%string -> k <> "sh_flags"%string ->
+  attr_hist_sec ai le img ((k, v) :: h) hist = attr_hist_sec ai le img h hist.
+Proof. exact attr_hist_field_irrelevant. Qed.
+Print Assumptions C20_attr_header_field_irrelevant.
+
+Theorem C20_attr_header_flags_irrelevant : forall ai le img (h : shdr) f hist,
+  Z.land f SHF_COMPRESSED = 0 -> Z.land (hget h "sh_flags") SHF_COMPRESSED = 0 ->
+  attr_hist_sec ai le img (("sh_flags"%string, f) :: h) hist = attr_hist_sec ai le img h hist.
+Proof. exact attr_hist_flags_irrelevant. Qed.
+Print Assumptions C20_attr_header_flags_irrelevant.
+
+Theorem C20_attr_history_exact_any_header : forall fl le pre post l (h : shdr) hist,
+  wf_section fl l = true ->
+  hget h "sh_offset" = zlen pre -> hget h "sh_size" = zlen (enc_section le l) ->
+  Z.land (hget h "sh_flags") SHF_COMPRESSED = 0 ->
+  attr_hist_sec (impl_of fl) le (pre ++ enc_section le l ++ post) h hist
+  = Ok (spec_hist (expected_section fl l) hist).
+Proof. exact attr_hist_sec_exact. Qed.
+Print Assumptions C20_attr_history_exact_any_header.
+
 (* ======================= non-vacuity ======================= *)
 Open Scope string_scope.
 Open Scope list_scope.
@@ -268,3 +312,11 @@ Example C20_ex_eh_history :
   nth 4 a EABad = nth 3 a EABad /\ nth 5 a EABad = nth 3 a EABad /\ nth 6 a EABad = nth 3 a EABad /\
   nth 7 a EABad = EAErr (EPy "IndexError").
 Proof. vm_compute. repeat split; reflexivity. Qed.
+
+(* an index whose header records sh_entsize 4: still one 8-byte entry *)
+Example C20_ex_entsize :
+  let img := int_encode true 4 0x7ffffff8 ++ int_encode true 4 0x80a8b0b0 in
+  let h := [("sh_offset", 0); ("sh_size", 8); ("sh_entsize", 4); ("sh_addralign", 0); ("sh_link", 77)] in
+  eh_hist_sec img true h [ENum; EGet 0; EGet 1]
+  = [EAInt 1; EAEntry (mk_entry (2 ^ 64 - 8) (Some 0) (Some [0xa8; 0xb0; 0xb0]) None); EAErr (EPy "IndexError")].
+Proof. vm_compute. reflexivity. Qed.
